@@ -220,7 +220,7 @@ def run(ctx):
         todo += [(True, p, ix["frac2"]) for p in scalar if len(p[0]["items"]) == 3]
     else:
         seen = {repr(p) for p in vec}
-        todo += [(True, p, ix[n]) for p in vec3m if repr(p) not in seen for n in ("cart2", "frac2")]
+        todo += [(True, p, ix["frac2"]) for p in vec3m if repr(p) not in seen]
         seen |= {repr(p) for p in vec3m}
         todo += [(True, p, ix["frac2"]) for p in vec3i if repr(p) not in seen]
     cases = []
